@@ -20,8 +20,8 @@ import (
 type Op struct {
 	Op string `json:"op"` // Add | RemoveForward | RemoveReverse | Clear | Clone
 	H  int    `json:"h"`
-	K  int    `json:"k,omitempty"`
-	V  int    `json:"v,omitempty"`
+	K  int    `json:"k"`
+	V  int    `json:"v"`
 }
 
 type Case struct {
@@ -323,15 +323,29 @@ func randomOps(r *core.Rand, univ []int, n, maxHandles int) []Op {
 		ops = append(ops, Op{Op: "Clone", H: 0})
 		handles++
 	}
+	// often start from a random bijection of 1..|univ| pairs (full maps are otherwise rare)
+	if r.Chance(40) {
+		ks, vs := perm(r, univ), perm(r, univ)
+		for i := r.Range(1, len(univ)); i > 0; i-- {
+			ops = append(ops, Op{Op: "Add", H: handles - 1, K: ks[i-1], V: vs[i-1]})
+		}
+		switch r.Intn(4) { // Clear / Clone of a well-filled Bimap
+		case 0:
+			ops = append(ops, Op{Op: "Clear", H: handles - 1})
+		case 1:
+			ops = append(ops, Op{Op: "Clone", H: handles - 1})
+			handles++
+		}
+	}
 	for len(ops) < n {
 		h := r.Intn(handles)
 		k, v := univ[r.Intn(len(univ))], univ[r.Intn(len(univ))]
 		switch p := r.Intn(100); {
-		case p < 55:
+		case p < 52:
 			ops = append(ops, Op{Op: "Add", H: h, K: k, V: v})
-		case p < 70:
+		case p < 67:
 			ops = append(ops, Op{Op: "RemoveForward", H: h, K: k})
-		case p < 85:
+		case p < 82:
 			ops = append(ops, Op{Op: "RemoveReverse", H: h, V: v})
 		case p < 90:
 			ops = append(ops, Op{Op: "Clear", H: h})
@@ -345,6 +359,15 @@ func randomOps(r *core.Rand, univ []int, n, maxHandles int) []Op {
 		}
 	}
 	return ops
+}
+
+func perm(r *core.Rand, s []int) []int {
+	p := append([]int(nil), s...)
+	for i := len(p) - 1; i > 0; i-- {
+		j := r.Intn(i + 1)
+		p[i], p[j] = p[j], p[i]
+	}
+	return p
 }
 
 // ---- execution of one case ----
